@@ -90,14 +90,14 @@ package eth2wrap
 //@ ensures result <==> exists(i, 0, len(s), s[i] == v)
 
 //@ func (c *DutiesCache) fetchProposerDuties
-//@ props C20
+//@ props C20 C15
 //@ ensures r1 ==> has(c.proposerDuties.duties, epoch) && has(c.proposerDuties.metadata, epoch) && has(c.proposerDuties.requestedIdxs, epoch)
 //@ ensures r1 ==> r0.duties == c.proposerDuties.duties[epoch] && r0.requestedIdxs == c.proposerDuties.requestedIdxs[epoch] && r0.metadata == c.proposerDuties.metadata[epoch]
 //@ ensures !r1 ==> !has(c.proposerDuties.duties, epoch) || !has(c.proposerDuties.metadata, epoch) || !has(c.proposerDuties.requestedIdxs, epoch)
 //@ ensures !r1 ==> len(r0.duties) == 0
 
 //@ func (c *DutiesCache) storeOrAmendProposerDuties
-//@ props C20
+//@ props C20 C15
 //@ assigns c.proposerDuties
 //@ atomic
 //@ ensures !has(old(c.proposerDuties.duties), epoch) ==> r1 && c.proposerDuties.duties[epoch] == dutiesForEpoch.duties && c.proposerDuties.requestedIdxs[epoch] == dutiesForEpoch.requestedIdxs && c.proposerDuties.metadata[epoch] == dutiesForEpoch.metadata
@@ -146,14 +146,14 @@ package eth2wrap
 //@ loop 3 invariant c.proposerDuties.duties == atentry(c.proposerDuties.duties) && c.proposerDuties.metadata == atentry(c.proposerDuties.metadata)
 
 //@ func (c *DutiesCache) fetchAttesterDuties
-//@ props C20
+//@ props C20 C15
 //@ ensures r1 ==> has(c.attesterDuties.duties, epoch) && has(c.attesterDuties.metadata, epoch) && has(c.attesterDuties.requestedIdxs, epoch)
 //@ ensures r1 ==> r0.duties == c.attesterDuties.duties[epoch] && r0.requestedIdxs == c.attesterDuties.requestedIdxs[epoch] && r0.metadata == c.attesterDuties.metadata[epoch]
 //@ ensures !r1 ==> !has(c.attesterDuties.duties, epoch) || !has(c.attesterDuties.metadata, epoch) || !has(c.attesterDuties.requestedIdxs, epoch)
 //@ ensures !r1 ==> len(r0.duties) == 0
 
 //@ func (c *DutiesCache) storeOrAmendAttesterDuties
-//@ props C20
+//@ props C20 C15
 //@ assigns c.attesterDuties
 //@ atomic
 //@ ensures !has(old(c.attesterDuties.duties), epoch) ==> r1 && c.attesterDuties.duties[epoch] == dutiesForEpoch.duties && c.attesterDuties.requestedIdxs[epoch] == dutiesForEpoch.requestedIdxs && c.attesterDuties.metadata[epoch] == dutiesForEpoch.metadata
@@ -202,14 +202,14 @@ package eth2wrap
 //@ loop 3 invariant c.attesterDuties.duties == atentry(c.attesterDuties.duties) && c.attesterDuties.metadata == atentry(c.attesterDuties.metadata)
 
 //@ func (c *DutiesCache) fetchSyncDuties
-//@ props C20
+//@ props C20 C15
 //@ ensures r1 ==> has(c.syncDuties.duties, epoch) && has(c.syncDuties.metadata, epoch) && has(c.syncDuties.requestedIdxs, epoch)
 //@ ensures r1 ==> r0.duties == c.syncDuties.duties[epoch] && r0.requestedIdxs == c.syncDuties.requestedIdxs[epoch] && r0.metadata == c.syncDuties.metadata[epoch]
 //@ ensures !r1 ==> !has(c.syncDuties.duties, epoch) || !has(c.syncDuties.metadata, epoch) || !has(c.syncDuties.requestedIdxs, epoch)
 //@ ensures !r1 ==> len(r0.duties) == 0
 
 //@ func (c *DutiesCache) storeOrAmendSyncDuties
-//@ props C20
+//@ props C20 C15
 //@ assigns c.syncDuties
 //@ atomic
 //@ ensures !has(old(c.syncDuties.duties), epoch) ==> r1 && c.syncDuties.duties[epoch] == dutiesForEpoch.duties && c.syncDuties.requestedIdxs[epoch] == dutiesForEpoch.requestedIdxs && c.syncDuties.metadata[epoch] == dutiesForEpoch.metadata
